@@ -26,7 +26,7 @@ import ast
 
 from ..astx import attr_writes, call_name, calls, walk_local
 from ..cfg import CFG
-from ..loader import AnalysisError, Repo
+from ..loader import AnalysisError, FuncInfo, Repo
 from ..report import Check, canon
 
 M = "xknx.devices.expose_sensor"
@@ -37,8 +37,35 @@ def _stmts(cfg: CFG, pred) -> list:
     return [n for n in cfg.nodes if n.kind == "stmt" and n.ast is not None and pred(n.ast)]
 
 
+RAW_SEND = "self.sensor_value.send_raw"
+SENDS: set[str] = {RAW_SEND}
+
+
+def find_send_wrappers(repo: Repo) -> dict[str, FuncInfo]:
+    """methods of ExposeSensor that are a send: every normal path calls `self.sensor_value.send_raw` with the method's
+    first parameter as the payload (and hands a `response` parameter through).  Calls to them count as sends."""
+    out: dict[str, FuncInfo] = {}
+    ci = repo.cls(M, "ExposeSensor")
+    for name, m in ci.methods.items():
+        ps = [a.arg for a in m.node.args.args if a.arg != "self"]
+        if not ps:
+            continue
+        cfg = CFG(m.node)
+        hits = [n.id for n in cfg.nodes if n.kind == "stmt" and n.ast is not None and any(call_name(c) == RAW_SEND and c.args and isinstance(c.args[0], ast.Name) and c.args[0].id == ps[0] and all(
+            (k.arg != "response" or (isinstance(k.value, ast.Name) and k.value.id in ps)) for k in c.keywords) and all(isinstance(x, ast.Name) and x.id in ps for x in c.args[1:]) for c in calls(n.ast))]
+        if hits and cfg.all_paths_hit(cfg.entry, hits, ends=[cfg.exit], edge_ok=lambda a_, b_, lab: lab != "exc"):
+            out[f"self.{name}"] = m
+    SENDS.clear()
+    SENDS.update({RAW_SEND, *out})
+    return out
+
+
+def _send_call(a: ast.AST) -> ast.Call | None:
+    return next((c for c in calls(a) if call_name(c) in SENDS), None)
+
+
 def _is_send(a: ast.AST) -> bool:
-    return any(call_name(c) == "self.sensor_value.send_raw" for c in calls(a))
+    return _send_call(a) is not None
 
 
 def _facts(cfg: CFG):
@@ -119,8 +146,36 @@ def cooldown_task_rules(chk: Check, repo: Repo) -> None:
     mf = _facts(cfg)
     sends = _stmts(cfg, _is_send)
     cancels = _stmts(cfg, lambda a: any(call_name(c) == "self._cooldown_task.cancel" for c in calls(a)))
-    eq_atoms = ("self.sensor_value.last_payload == " + SLOT, SLOT + " == self.sensor_value.last_payload")
-    s_ok = len(sends) == 1 and any(a in eq_atoms and v is False for a, v in mf[sends[0].id]) and any(call_name(c) == "self.sensor_value.send_raw" and c.args and ast.unparse(cfg.symbolic(sends[0].id, c.args[0])) == SLOT for c in calls(sends[0].ast))
+    # the value the pending one is compared with at the end of a cooldown ("the value last on the bus")
+    refs = sorted({ast.unparse(o) for n in cfg.nodes if n.kind == "test" and isinstance(n.ast, ast.Compare) and len(n.ast.ops) == 1 and isinstance(n.ast.ops[0], (ast.Eq, ast.NotEq))
+                   for me, o in ((n.ast.left, n.ast.comparators[0]), (n.ast.comparators[0], n.ast.left)) if ast.unparse(me) == SLOT})
+    if len(refs) != 1:
+        raise AnalysisError(f"_cooldown_send: the comparison of the pending value not found ({refs})")
+    ref = refs[0]
+    eq_atoms = (f"{ref} == {SLOT}", f"{SLOT} == {ref}")
+    # ... has to be what the sensor itself handed to the outgoing queue last: `sensor_value.last_payload` is written when
+    # the queue has *processed* the telegram (rate limiter, confirmation wait) - while an own telegram is still queued it is
+    # the value before, the same payload is queued again at every expiry, or a newer value is taken for sent and dropped
+    cls = repo.cls(M, "ExposeSensor")
+    own = ref.startswith("self.") and ref.count(".") == 1
+    paired = False
+    detail = f"`{ref}` is not an attribute of the sensor itself"
+    if own:
+        attr = ref[5:]
+        raw_sites = [(m, n_) for m in cls.methods.values() for n_ in walk_local(m.node) if isinstance(n_, ast.Call) and call_name(n_) == RAW_SEND]
+        bad = []
+        for m, c in raw_sites:
+            mc = CFG(m.node)
+            sn = next((x for x in mc.nodes if x.kind == "stmt" and x.ast is not None and any(y is c for y in ast.walk(x.ast))), None)
+            pay = ast.unparse(c.args[0]) if c.args else "?"
+            st = [x for x in mc.nodes if x.kind == "stmt" and isinstance(x.ast, ast.Assign) and any(ast.unparse(t) == ref for t in x.ast.targets) and ast.unparse(x.ast.value) == pay]
+            if sn is None or not any(mc.dominates(x.id, sn.id) or mc.all_paths_hit(sn.id, [x.id], ends=[mc.exit], edge_ok=lambda a_, b_, lab: lab != "exc") for x in st):
+                bad.append(f"{m.name}: send_raw({pay})")
+        paired = bool(raw_sites) and not bad
+        detail = f"`{ref}` is written with the payload at every one of the {len(raw_sites)} send_raw site(s)" if paired else f"`{ref}` is not written at {bad}"
+        _ = attr
+    chk.ob("cooldown-end-compares-with-what-was-queued-last", cs.site(), own and paired, "_cooldown_send compares the pending value with " + (detail if own and paired else detail + " - while an own telegram waits in the outgoing queue the comparison sees an older value: one update is sent again at every expiry, or the newest value is dropped"), key="cooldown-send|reference")
+    s_ok = len(sends) == 1 and any(a in eq_atoms and v is False for a, v in mf[sends[0].id]) and any(call_name(c) in SENDS and c.args and ast.unparse(cfg.symbolic(sends[0].id, c.args[0])) == SLOT for c in calls(sends[0].ast))
     c_ok = len(cancels) == 1 and any(a in eq_atoms and v for a, v in mf[cancels[0].id]) and not any(cfg.dominates(cancels[0].id, s_.id) for s_ in sends)
     chk.ob("cooldown-end-sends-the-pending-value-iff-it-differs", cs.site(), s_ok and c_ok, "_cooldown_send: pending value != last payload on the bus -> send the pending value; equal -> cancel the task, send nothing", key="cooldown-send")
 
@@ -156,7 +211,7 @@ def read_and_periodic(chk: Check, repo: Repo) -> None:
     resp = _stmts(cfg, lambda a: any(call_name(c) == "self.sensor_value.respond" for c in calls(a)))
     ok = len(sends) == 1 and len(resp) == 1
     if ok:
-        c = next(c for c in calls(sends[0].ast) if call_name(c) == "self.sensor_value.send_raw")
+        c = next(c for c in calls(sends[0].ast) if call_name(c) in SENDS)
         as_response = any(k.arg == "response" and isinstance(k.value, ast.Constant) and k.value.value is True for k in c.keywords)
         pending = any((a == SLOT + " is not None" and v) or (a == SLOT + " is None" and v is False) for a, v in mf[sends[0].id])
         none_ = any((a == SLOT + " is not None" and v is False) or (a == SLOT + " is None" and v) for a, v in mf[resp[0].id])
@@ -168,7 +223,7 @@ def read_and_periodic(chk: Check, repo: Repo) -> None:
     chk.unit(ps)
     cfg2 = CFG(ps.node)
     sends2 = _stmts(cfg2, _is_send)
-    ok2 = len(sends2) == 1 and any(call_name(c) == "self.sensor_value.send_raw" and c.args and ast.unparse(c.args[0]) == SLOT for c in calls(sends2[0].ast)) and any(call_name(c2) == "self._restart_cooldown" for n in cfg2.nodes if n.kind == "stmt" and n.ast is not None and cfg2.dominates(sends2[0].id, n.id) for c2 in calls(n.ast))
+    ok2 = len(sends2) == 1 and any(call_name(c) in SENDS and c.args and ast.unparse(c.args[0]) == SLOT for c in calls(sends2[0].ast)) and any(call_name(c2) == "self._restart_cooldown" for n in cfg2.nodes if n.kind == "stmt" and n.ast is not None and cfg2.dominates(sends2[0].id, n.id) for c2 in calls(n.ast))
     chk.ob("periodic-send-uses-the-pending-value", ps.site(), ok2, "_periodic_send_impl sends the pending value and restarts the cooldown", key="periodic")
     # ... but not while a cooldown runs: that would put a value telegram on the bus less than one cooldown after the last
     mf2 = cfg2.must_facts()
@@ -201,6 +256,14 @@ def slot_writers(chk: Check, repo: Repo) -> None:
     # ... on every path: an exit between installing the value and aligning the slot leaves the old pending value to
     # answer reads and to be re-sent when the cooldown ends
     ok = ok and cfg.all_paths_hit(cfg.entry, [slot[0].id], ends=[cfg.exit], edge_ok=lambda a_, b_, lab: lab != "exc")
+    # ... and the value the cooldown compares with follows (where that is an attribute of its own): otherwise the end of a
+    # running cooldown takes the initialised value for a pending one and sends it
+    cs = repo.func(M, "ExposeSensor._cooldown_send")
+    refs = sorted({ast.unparse(o) for n in ast.walk(cs.node) if isinstance(n, ast.Compare) and len(n.ops) == 1 and isinstance(n.ops[0], (ast.Eq, ast.NotEq))
+                   for me, o in ((n.left, n.comparators[0]), (n.comparators[0], n.left)) if ast.unparse(me) == SLOT})
+    if len(refs) == 1 and refs[0] != "self.sensor_value.last_payload":
+        rst = _stmts(cfg, lambda a: isinstance(a, ast.Assign) and any(ast.unparse(t) == refs[0] for t in a.targets) and ast.unparse(a.value) in ("self.sensor_value.last_payload", SLOT))
+        ok = ok and len(rst) == 1 and cfg.dominates(setv[0].id, rst[0].id) and cfg.all_paths_hit(cfg.entry, [rst[0].id], ends=[cfg.exit], edge_ok=lambda a_, b_, lab: lab != "exc")
     chk.ob("initialize-value-leaves-nothing-pending", iv.site(), ok, "initialize_value installs the value, then makes the pending slot equal to the payload last 'on the bus' (nothing to send)", key="slot|initialize")
 
 
@@ -227,6 +290,9 @@ def task_loop(chk: Check, repo: Repo) -> None:
 
 
 def run(chk: Check, repo: Repo) -> None:
+    wr = find_send_wrappers(repo)
+    for m in wr.values():
+        chk.unit(m)
     set_rules(chk, repo)
     task_loop(chk, repo)
     cooldown_task_rules(chk, repo)
